@@ -56,6 +56,9 @@ use crate::{
 };
 
 pub(super) mod computation_graph;
+
+#[cfg(feature = "verif")]
+pub use computation_graph::verif;
 pub(super) mod guard;
 pub(super) mod yielder;
 
